@@ -403,10 +403,13 @@ Proof.
   - destruct (has_role s from (burner c)); [|discriminate]. destruct (has_auth auths from); [|discriminate]. cbn [guard bind] in H.
     destruct (n_owner (a_nft s) token) as [o|]; [|discriminate]. cbn [of_option bind] in H. destruct (N.eqb o from); [|discriminate]. inversion H; cbn; auto.
   - destruct (has_role s spender (burner c)); [|discriminate]. destruct (has_auth auths spender); [|discriminate]. cbn [guard bind] in H.
-    destruct (N.eqb spender from || match n_appr (a_nft s) token with Some ap => N.eqb ap spender | None => false end); [|discriminate]. cbn [guard bind] in H.
+    destruct (N.eqb spender from || match approved_of (a_now s) (a_nft s) token with Some ap => N.eqb ap spender | None => false end); [|discriminate]. cbn [guard bind] in H.
     destruct (n_owner (a_nft s) token) as [o|]; [|discriminate]. cbn [of_option bind] in H. destruct (N.eqb o from); [|discriminate]. inversion H; cbn; auto.
   - destruct (has_auth auths approver); [|discriminate]. cbn [guard bind] in H.
-    destruct (n_owner (a_nft s) token) as [o|]; [|discriminate]. cbn [of_option bind] in H. destruct (N.eqb approver o); [|discriminate]. inversion H; cbn; auto.
+    destruct (n_owner (a_nft s) token) as [o|]; [|discriminate]. cbn [of_option bind] in H. destruct (N.eqb approver o); [|discriminate]. cbn [guard bind] in H.
+    destruct (live_until =? 0); [inversion H; cbn; auto|].
+    destruct (negb (live_until <? a_now s)); [|discriminate]. cbn [guard bind] in H.
+    destruct (live_until - a_now s <=? max_ttl (host c) - 1); [|discriminate]. inversion H; cbn; auto.
   - inversion H; cbn; auto.
 Qed.
 
@@ -626,12 +629,15 @@ Proof.
     destruct (N.eqb o from); cbn; (split; [exact Hn|discriminate]).
   - destruct (has_role s spender (burner c)); cbn; [|split; [exact Hn|discriminate]].
     destruct (has_auth auths spender); cbn; [|split; [exact Hn|discriminate]].
-    destruct (N.eqb spender from || match n_appr (a_nft s) token with Some ap => N.eqb ap spender | None => false end); cbn; [|split; [exact Hn|discriminate]].
+    destruct (N.eqb spender from || match approved_of (a_now s) (a_nft s) token with Some ap => N.eqb ap spender | None => false end); cbn; [|split; [exact Hn|discriminate]].
     destruct (n_owner (a_nft s) token) as [o|]; cbn; [|split; [exact Hn|discriminate]].
     destruct (N.eqb o from); cbn; (split; [exact Hn|discriminate]).
   - destruct (has_auth auths approver); cbn; [|split; [exact Hn|discriminate]].
     destruct (n_owner (a_nft s) token) as [o|]; cbn; [|split; [exact Hn|discriminate]].
-    destruct (N.eqb approver o); cbn; (split; [exact Hn|discriminate]).
+    destruct (N.eqb approver o); cbn; [|split; [exact Hn|discriminate]].
+    destruct (live_until =? 0); cbn; [split; [exact Hn|discriminate]|].
+    destruct (negb (live_until <? a_now s)); cbn; [|split; [exact Hn|discriminate]].
+    destruct (live_until - a_now s <=? max_ttl (host c) - 1); cbn; (split; [exact Hn|discriminate]).
   - cbn. split; [exact Hn|discriminate].
 Qed.
 
@@ -726,13 +732,13 @@ Qed.
 Lemma burn_from_closed : forall c s sp from tok au,
   exec c s (BurnFrom sp from tok au) =
   if has_role s sp (burner c) && has_auth au sp &&
-     (N.eqb sp from || match n_appr (a_nft s) tok with Some ap => N.eqb ap sp | None => false end) &&
+     (N.eqb sp from || match approved_of (a_now s) (a_nft s) tok with Some ap => N.eqb ap sp | None => false end) &&
      match n_owner (a_nft s) tok with Some o => N.eqb o from | None => false end
   then Ok (burnt s tok) else Fail.
 Proof.
   intros. cbn [exec]. destruct (has_role s sp (burner c)); [|reflexivity].
   destruct (has_auth au sp); [|reflexivity]. cbn [guard bind andb].
-  destruct (N.eqb sp from || match n_appr (a_nft s) tok with Some ap => N.eqb ap sp | None => false end); [|reflexivity].
+  destruct (N.eqb sp from || match approved_of (a_now s) (a_nft s) tok with Some ap => N.eqb ap sp | None => false end); [|reflexivity].
   cbn [guard bind andb].
   destruct (n_owner (a_nft s) tok) as [o|]; [|reflexivity]. cbn [of_option bind]. destruct (N.eqb o from); reflexivity.
 Qed.
@@ -746,13 +752,22 @@ Proof.
   destruct (has_auth au caller); reflexivity.
 Qed.
 
-Lemma approve_closed : forall c s approver approved tok au,
-  exec c s (Approve approver approved tok au) =
-  if has_auth au approver && match n_owner (a_nft s) tok with Some o => N.eqb approver o | None => false end
-  then Ok (set_nft s {| n_owner := n_owner (a_nft s); n_appr := upd (n_appr (a_nft s)) tok (Some approved) |}) else Fail.
+Lemma approve_guards : forall c s approver approved tok lu au s',
+  exec c s (Approve approver approved tok lu au) = Ok s' ->
+  has_auth au approver = true /\ n_owner (a_nft s) tok = Some approver /\
+  a_now s' = a_now s /\ n_owner (a_nft s') = n_owner (a_nft s) /\
+  a_rt s' = a_rt s /\ a_role_admin s' = a_role_admin s /\ same_roles s s' /\
+  approved_of (a_now s') (a_nft s') tok = (if lu =? 0 then None else Some approved).
 Proof.
-  intros. cbn [exec]. destruct (has_auth au approver); [|reflexivity]. cbn [guard bind andb].
-  destruct (n_owner (a_nft s) tok) as [o|]; [|reflexivity]. cbn [of_option bind]. destruct (N.eqb approver o); reflexivity.
+  intros c s approver approved tok lu au s' H. cbn [exec] in H.
+  destruct (has_auth au approver); [|discriminate]. cbn [guard bind] in H.
+  destruct (n_owner (a_nft s) tok) as [o|]; [|discriminate]. cbn [of_option bind] in H.
+  destruct (N.eqb_spec approver o); [|discriminate]. subst o. cbn [guard bind] in H.
+  destruct (lu =? 0) eqn:E0.
+  - inversion H; subst s'. unfold same_roles, approved_of. cbn. rewrite upd_eq. repeat split; reflexivity.
+  - destruct (lu <? a_now s) eqn:El; [discriminate|]. cbn [negb guard bind] in H.
+    destruct (lu - a_now s <=? max_ttl (host c) - 1); [|discriminate]. inversion H; subst s'.
+    unfold same_roles, approved_of. cbn. rewrite upd_eq. rewrite El. repeat split; reflexivity.
 Qed.
 
 Lemma set_role_admin_closed : forall c s r ar au,
@@ -841,11 +856,9 @@ Proof.
     destruct (has_role s from (burner c) && has_auth auths from && match n_owner (a_nft s) token with Some o => N.eqb o from | None => false end); [|discriminate].
     inversion E; reflexivity.
   - exfalso; apply H. rewrite burn_from_closed in E.
-    destruct (has_role s spender (burner c) && has_auth auths spender && (N.eqb spender from || match n_appr (a_nft s) token with Some ap => N.eqb ap spender | None => false end) && match n_owner (a_nft s) token with Some o => N.eqb o from | None => false end); [|discriminate].
+    destruct (has_role s spender (burner c) && has_auth auths spender && (N.eqb spender from || match approved_of (a_now s) (a_nft s) token with Some ap => N.eqb ap spender | None => false end) && match n_owner (a_nft s) token with Some o => N.eqb o from | None => false end); [|discriminate].
     inversion E; reflexivity.
-  - exfalso; apply H. rewrite approve_closed in E.
-    destruct (has_auth auths approver && match n_owner (a_nft s) token with Some o => N.eqb approver o | None => false end); [|discriminate].
-    inversion E; reflexivity.
+  - exfalso; apply H. destruct (approve_guards _ _ _ _ _ _ _ _ E) as [_ [_ [_ [_ [_ [R _]]]]]]. rewrite R. reflexivity.
   - exfalso; apply H; cbn [exec] in E. inversion E; reflexivity.
 Qed.
 
@@ -896,4 +909,32 @@ Proof.
   intros c start adm cs. unfold run. induction cs as [|cl r IH] using rev_ind.
   - cbn. lia.
   - rewrite fold_left_app. cbn [fold_left]. apply step_existing_len. exact IH.
+Qed.
+
+(* ------------------------------------------------------------------ *)
+(* examples/fungible-allowlist: #[only_role(operator, "manager")] *)
+From SC Require Import Model.AllowList.
+Theorem allowlist_guard : forall c s user op au,
+  al_step c s (AllowUser user op au) =
+    (if has_role (al_s s) op (al_manager c) && has_auth au op
+     then ({| al_s := al_s s; al_allowed := upd (al_allowed s) user true |}, true) else (s, false)) /\
+  al_step c s (DisallowUser user op au) =
+    (if has_role (al_s s) op (al_manager c) && has_auth au op
+     then ({| al_s := al_s s; al_allowed := upd (al_allowed s) user false |}, true) else (s, false)).
+Proof. intros. split; reflexivity. Qed.
+
+(* the allow flags change only through a guarded call; in particular never by the passing of time *)
+Theorem allowlist_frame : forall c s cl a,
+  al_allowed (fst (al_step c s cl)) a <> al_allowed s a ->
+  exists op au, (cl = AllowUser a op au \/ cl = DisallowUser a op au) /\
+    has_role (al_s s) op (al_manager c) = true /\ has_auth au op = true.
+Proof.
+  intros c s cl a H. destruct cl as [cl|user op au|user op au]; cbn [al_step] in H.
+  - destruct (Access.step (al_c c) (al_s s) cl). cbn in H. contradiction.
+  - unfold manager_guard in H. destruct (has_role (al_s s) op (al_manager c)) eqn:E1; [|cbn in H; contradiction].
+    destruct (has_auth au op) eqn:E2; [|cbn in H; contradiction]. cbn in H. unfold upd in H.
+    destruct (N.eqb_spec a user); [|contradiction]. subst. exists op, au. auto.
+  - unfold manager_guard in H. destruct (has_role (al_s s) op (al_manager c)) eqn:E1; [|cbn in H; contradiction].
+    destruct (has_auth au op) eqn:E2; [|cbn in H; contradiction]. cbn in H. unfold upd in H.
+    destruct (N.eqb_spec a user); [|contradiction]. subst. exists op, au. auto.
 Qed.
